@@ -255,3 +255,42 @@ theorem findError_first (p : Name → Bool) (n m : Name) (as : List Attr) (c res
   simp [findErrorP, hp, this, Encoder.inner]
 
 end XmppModel.Stanza
+
+namespace XmppModel.Stanza
+open XmppModel.Xml
+
+/-- inside a child that is being skipped, balanced content leaves the search where it was -/
+theorem findErrorP_body (p : Name → Bool) (body rest : List Tok) :
+    ∀ r r', depthAfter r body = some r' → findErrorP p (r + 1) (body ++ rest) = findErrorP p (r' + 1) rest := by
+  induction body with
+  | nil => intro r r' h; simp [depthAfter] at h; simp [h]
+  | cons t ts ih =>
+    intro r r' h
+    cases t with
+    | start n as => simp only [depthAfter] at h; simpa [findErrorP] using ih (r + 1) r' h
+    | stop n =>
+      cases r with
+      | zero => simp [depthAfter] at h
+      | succ r0 => simp only [depthAfter] at h; simpa [findErrorP] using ih r0 r' h
+    | chars s => simp only [depthAfter] at h; simpa [findErrorP] using ih r r' h
+    | comment s => simp only [depthAfter] at h; simpa [findErrorP] using ih r r' h
+    | procInst x y => simp only [depthAfter] at h; simpa [findErrorP] using ih r r' h
+    | directive s => simp only [depthAfter] at h; simpa [findErrorP] using ih r r' h
+
+/-- a complete child element that is not accepted is skipped as a whole -/
+theorem findErrorP_elems (p : Name → Bool) (es : List Elem) (hes : ∀ e ∈ es, e.ok)
+    (hn : ∀ e ∈ es, p e.name = false) (rest : List Tok) :
+    findErrorP p 0 (es.flatMap Elem.toks ++ rest) = findErrorP p 0 rest := by
+  induction es with
+  | nil => simp
+  | cons e es ih =>
+    have hb : depthAfter 0 e.body = some 0 := by
+      have := hes e (by simp); simpa [Elem.ok, balanced] using this
+    have hp := hn e (by simp)
+    simp only [List.flatMap_cons, Elem.toks, List.cons_append, List.append_assoc]
+    simp only [findErrorP, hp, Bool.false_eq_true, if_false]
+    rw [findErrorP_body p e.body _ 0 0 hb]
+    simp only [List.singleton_append, findErrorP]
+    exact ih (fun x hx => hes x (by simp [hx])) (fun x hx => hn x (by simp [hx]))
+
+end XmppModel.Stanza
